@@ -75,7 +75,7 @@ def handle (f : Fields) : String :=
   | "hist" =>
     let cfg : Cfg := ⟨if f.get "ca" == "memca" then .memca else .gcsca,
                       if f.get "km" == "localkm" then .localkm else .memkm,
-                      f.bool "seq", f.bool "cli"⟩
+                      f.bool "seq", f.bool "cli", true⟩
     let raw := if f.get "cmds" == "" then [] else (f.get "cmds").splitOn ";"
     let cmds := raw.filterMap parseCmd
     if cmds.length ≠ raw.length then "bad-op"
